@@ -66,6 +66,8 @@ type Conn struct {
 	ID           int
 	msgs         int
 	pending      int
+	// OnClose runs synchronously inside the first Close call
+	OnClose func()
 }
 
 func NewConn(c net.Conn, id int) *Conn {
@@ -105,6 +107,9 @@ func (c *Conn) Write(p []byte) (int, error) {
 
 func (c *Conn) Close() error {
 	c.once.Do(func() {
+		if c.OnClose != nil {
+			c.OnClose()
+		}
 		c.L.Add("close")
 		close(c.closed)
 	})
